@@ -77,7 +77,7 @@ Print Assumptions C14_systems_unique.
    what a fresh parse of the content current at that call answers (value or exception): no remnant. *)
 Theorem C14_reload_complete : forall O c (content_of : N -> fstate) h fs src,
   consistent content_of fs h -> inv O c content_of src ->
-  run O c fs src h = spec_run O c (snd fs) h.
+  run O c fs src h = spec_run O c (fver src) fs h.
 Proof. exact run_spec. Qed.
 Print Assumptions C14_reload_complete.
 
@@ -129,3 +129,18 @@ Proof.
   - intros a b H. exact H.
   - vm_compute. reflexivity.
 Qed.
+
+(* non-vacuity of the fault dimension: with a valid snapshot the faulted call does not touch the file and answers;
+   after an edit the fault is the result of that call, and the next call is correct again *)
+Example C14_nonvacuous_fault :
+  let f1 := FText [97; 61; 49; 10] in let f2 := FText [98; 61; 50; 10] in
+  let h := [SCall (CGet (VStr [97])); SCallF (CGet (VStr [97])) (FIO 5); SEdit 2 f2;
+            SCallF (CGet (VStr [98])) (FIO 5); SCall (CGet (VStr [98])); SCallF (CGet (VStr [98])) (FStat 77)] in
+  consistent (fun v => match v with 1 => f1 | _ => f2 end) (1, f1) h
+  /\ map fst (run ex_oracle ex_cfg (1, f1) fresh h)
+     = [AGet [([110], Node [([118], Leaf (VStr [49]))])] (Some [97; 61; 49]);
+        AGet [([110], Node [([118], Leaf (VStr [49]))])] (Some [97; 61; 49]);
+        ARaise 5;
+        AGet [([110], Node [([118], Leaf (VStr [50]))])] (Some [98; 61; 50]);
+        AGet [([110], Node [([118], Leaf (VStr [50]))])] (Some [98; 61; 50])].
+Proof. split; [cbn; repeat split|vm_compute; reflexivity]. Qed.
